@@ -182,22 +182,27 @@ def decodeExtended : List Nat → List Chunk → Option PitchEnv
     decodeExtended rest (acc ++ [{ start := s16 h l, delta := s16 dh dl, frames := if s = 255 then none else some (s + 1), next := some n }])
   | _, _ => none
 
+/-- in the extended form every node but the last continues at the next one -/
+def extNextOk : Nat → List Chunk → Bool
+  | _, [] => true
+  | _, [_] => true
+  | k, c :: c' :: rest => c.next == some (k + 1) && extNextOk (k + 1) (c' :: rest)
+
 /-- the independent reader of a pitch envelope -/
 def runPitchEnv (extended : Bool) (b : List Nat) : Option PitchEnv :=
   if extended then
     (decodeExtended b []).bind fun e =>
       -- every node continues at the next one, except the last which either points at itself
-      -- (hold) or at the loop node
-      let n := e.chunks.length
-      if n = 0 then none else
-      let okNext := (List.range (n - 1)).all fun i => (e.chunks[i]?.bind (·.next)) == some (i + 1)
-      match e.chunks.getLast?.bind (·.next) with
-      | some nx =>
-        if !okNext then none
-        else if (e.chunks.getLast?.map (·.frames)) == some none then
-          (if nx + 1 = n then some e else none)
-        else some { e with loopTo := some nx }
+      -- (hold for ever) or at the loop node
+      match e.chunks.getLast? with
       | none => none
+      | some last =>
+        match last.next with
+        | none => none
+        | some nx =>
+          if !extNextOk 0 e.chunks then none
+          else if last.frames.isNone then (if nx + 1 = e.chunks.length then some e else none)
+          else some { e with loopTo := some nx }
   else decodeCompact b []
 
 /-- `⌊|a/b|⌋` toward zero, for b > 0 -/
